@@ -74,6 +74,12 @@ impl OverlayFS {
         if let Some(index) = separator {
             let parent_path = &path[..index];
             if self.exists(parent_path)? {
+                // a file of a lower layer must not be shadowed by a directory
+                if self.metadata(parent_path)?.file_type != VfsFileType::Directory {
+                    return Err(
+                        VfsErrorKind::Other("Parent path is not a directory".into()).into(),
+                    );
+                }
                 self.write_path(parent_path)?.create_dir_all()?;
                 return Ok(());
             }
